@@ -313,6 +313,18 @@ func sqlScenarios(prop string, thorough bool) []*sqlScenario {
 		add("delete||delete(other row)", one(del(1)), one(del(3)))
 		add("txn(insert,delete)||txn(update,insert)", txn(ins(7, "n1"), del(1)), txn(updV("w2", 3), ins(8, "n2")))
 		add("key-update||range-read", one(&Stmt{Kind: "update", Table: "t", Set: []SetItem{{"k", k(20)}}, Where: Leaf{"k", "=", k(2)}}), one(rng))
+		// twelve rows with 600-byte values: the index on v spans several nodes of a handful of entries; two
+		// multi-row DELETEs over neighbouring key ranges drain and unlink nodes next to each other (the entries
+		// go at commit), a third session inserts into the same region
+		var wide []*Stmt
+		for i := 1; i <= 12; i++ {
+			wide = append(wide, ins(i, bigStr(fmt.Sprintf("w%02d", i), 600)))
+		}
+		rdel := func(lo, hi int) *Stmt {
+			return &Stmt{Kind: "delete", Table: "t", Where: And{Leaf{"k", ">=", k(lo)}, Leaf{"k", "<=", k(hi)}}}
+		}
+		out = append(out, &sqlScenario{Name: "wide/range-delete||range-delete", Seed: wide, Threads: []sqlThread{one(rdel(1, 6)), one(rdel(7, 12))}, Bound: bound},
+			&sqlScenario{Name: "wide/range-delete||insert||range-delete", Seed: wide, Threads: []sqlThread{one(rdel(3, 7)), one(ins(13, bigStr("w06x", 600))), one(rdel(8, 12))}, Bound: bound})
 	case "C05":
 		add("lost-update", txn(point(2), updV("w1", 2)), txn(point(2), updV("w2", 2)))
 		add("write-skew", txn(point(1), updV("w1", 2)), txn(point(2), updV("w2", 1)))
